@@ -60,7 +60,14 @@ func tokenLess(t1, t2 *token.Token) bool {
 			return boolToInt(isList1) < boolToInt(isList2)
 		}
 
-		return ddptypes.GetUnderlying(t1.AliasInfo.Type).String() < ddptypes.GetUnderlying(t2.AliasInfo.Type).String()
+		// the type of a parameter might be missing after a reported error
+		typeName := func(t ddptypes.Type) string {
+			if t == nil {
+				return ""
+			}
+			return ddptypes.GetUnderlying(t).String()
+		}
+		return typeName(t1.AliasInfo.Type) < typeName(t2.AliasInfo.Type)
 	case token.IDENTIFIER, token.SYMBOL, token.INT, token.FLOAT, token.CHAR, token.STRING:
 		return t1.Literal < t2.Literal
 	}
